@@ -284,6 +284,13 @@ func init() {
 			kinds := stepKinds(p.Steps)
 			// model comparison: first and second generation JSON over the JSON leg
 			skipModel := emptyPrimaryWithAlias(d) && floatAlias(d)
+			if a, derr := decodeText(text); derr == nil && !hasTimestamp(d) {
+				// the decoded value tree is the document that was written (strings that look like other types included)
+				if want, got := sx.String(dvSexp(d, form == "json")), sx.String(anySexp(a)); want != got {
+					oracleFail("C09", "decode-differs-from-document", c, fmt.Sprintf("the document denotes %s but decodes to %s", want, got))
+					continue
+				}
+			}
 			if a, derr := decodeText(text); derr == nil && !skipModel {
 				if p2, err2 := pipeline.Parse(bytes.NewReader(jb)); err2 == nil || warning.Is(err2) {
 					if jb2, e := json.Marshal(p2); e == nil {
